@@ -20,10 +20,17 @@
 #include "icinga/timeperiod.hpp"
 #include "icinga/icingaapplication.hpp"
 #include "checker/checkercomponent.hpp"
+#include "remote/endpoint.hpp"
+#include "remote/zone.hpp"
+#include "remote/jsonrpcconnection.hpp"
 #include <atomic>
 #include <thread>
 #include <mutex>
 #include <unordered_map>
+#include <condition_variable>
+#include <map>
+#include <set>
+#include <functional>
 #include <cmath>
 #include <sys/file.h>
 #include <fcntl.h>
@@ -39,7 +46,13 @@ struct CkInfo {
 	Checkable::Ptr obj;
 	std::string name;       // config name (host or host!svc)
 	int mode = 0;           // 0 ok, 1 critical, 2 flip ok/critical every 2 runs, 3 throws, 4 ok but every 3rd result is stamped older than the stored one (rejected)
-	long dur_us = 0;        // how long the check command sleeps
+	long dur_us = 0;        // how long the check command sleeps (synchronous) / how long the "process" lives (asynchronous)
+	int kind = 0;           // 0 synchronous: the result is processed before Execute() returns; 1 asynchronous: Execute() returns at
+	                        // once, the result is handed to ProcessCheckResult later by another thread (as PluginCheckTask's process callback does)
+	bool tl = false;        // timeline case: the command blocks on / the result waits for a gate that the script opens
+	std::atomic<bool> gateOpen{true};
+	std::atomic<int> blocked{0};         // synchronous executions sitting in the gate
+	std::atomic<long> nS{0}, nD{0}, nC{0};   // starts, processed results, clears of force_next_check
 	long ci_us = 0, ri_us = 0;
 	std::atomic<unsigned long> gen{0};   // seqlock: odd while a driver op on this checkable is in flight
 	std::atomic<long> runs{0};
@@ -77,6 +90,7 @@ int IndexOf(const Checkable *c)
 // thread-local context: a lower bound for the clock value the next UpdateNextCheck() on this thread samples
 struct Ctx { const Checkable *ck = nullptr; long t0 = 0; int pcr = 0; bool have = false; long t1 = 0, next = 0; };
 thread_local Ctx tl_Ctx;
+thread_local bool tl_Requesting = false;   // this thread is inside its own SetForceNextCheck(true): the signal it emits is not a clear
 std::atomic<int> l_NextTid{1};
 thread_local int tl_Tid = 0;
 int Tid() { if (!tl_Tid) tl_Tid = l_NextTid.fetch_add(1); return tl_Tid; }
@@ -88,36 +102,26 @@ Host::Ptr l_PcrHost;
 long l_PcrNo = 0;
 long l_DefStarted = 0;
 CheckResult::Ptr l_DefCr;
+int l_PcrRemote = 0;     // 0 local; 1 command_endpoint set, endpoint not connected; 2 command_endpoint set, endpoint connected
 
-void SchCheckFn(const Checkable::Ptr& checkable, const CheckResult::Ptr& cr, const Dictionary::Ptr&, bool)
+// ------------------------------------------------------------------ asynchronous executions
+// A native stand-in for PluginCheckTask: ScriptFunc spawns the "process", counts the slot (IncreasePendingChecks) and returns;
+// when the process ends another thread runs what ProcessFinishedHandler does: DecreasePendingChecks, then ProcessCheckResult.
+struct AsyncJob { int id; Checkable::Ptr ck; CheckResult::Ptr cr; long run; };
+std::mutex l_AsyncMutex;
+std::condition_variable l_AsyncCV;
+std::multimap<double, AsyncJob> l_AsyncQ;       // by due time
+std::map<int, AsyncJob> l_AsyncHeld;            // timeline cases: waiting for the gate of checkable id
+std::vector<std::thread> l_AsyncThreads;
+int l_AsyncActive = 0;
+bool l_AsyncFlush = false;
+std::atomic<long> l_AsyncAlive{0};              // launched, slot not yet counted down
+std::mutex l_GateMutex;
+std::condition_variable l_GateCV;
+
+void FinishExecution(CkInfo& ci, int id, const Checkable::Ptr& checkable, const CheckResult::Ptr& cr, long run)
 {
-	if (l_PcrCk && checkable == l_PcrCk) {
-		l_DefStarted++;
-		l_DefCr = cr;
-		return;
-	}
-	int id = IndexOf(checkable.get());
-	if (id < 0 || !l_Running.load()) {
-		// not ours (left-over from an earlier case): behave like a fast OK check
-		cr->SetState(ServiceOK);
-		checkable->ProcessCheckResult(cr);
-		return;
-	}
-	CkInfo& ci = *l_Cks[id];
-	{
-		// lateness of this execution relative to the time it was scheduled for (schedule_start = next_check at dispatch);
-		// only for calm checkables, whose next_check is never stale
-		long t = NowUs();
-		long late = ci.calm ? std::max(0L, t - ToUs(cr->GetScheduleStart())) : -1;
-		Record({'S', t, id, late, ToUs(cr->GetScheduleStart()), Tid()});
-	}
-	if (ci.dur_us > 0)
-		Utility::Sleep(ci.dur_us / 1e6);
-	long run = ci.runs.fetch_add(1);
-	Record({'E', NowUs(), id});
 	tl_Ctx = Ctx{checkable.get(), NowUs(), 1};
-	if (ci.mode == 3)
-		throw std::runtime_error("sch: check command throws by configuration");
 	ServiceState st = ServiceOK;
 	if (ci.mode == 1) st = ServiceCritical;
 	if (ci.mode == 2) st = ((run / 2) % 2) ? ServiceCritical : ServiceOK;
@@ -137,7 +141,119 @@ void SchCheckFn(const Checkable::Ptr& checkable, const CheckResult::Ptr& cr, con
 	}
 	checkable->ProcessCheckResult(cr);
 	tl_Ctx = Ctx{};
+	ci.nD++;
 	Record({'D', NowUs(), id});   // result processing of this execution is over (accepted or rejected)
+}
+
+void AsyncDeliver(const AsyncJob& j)
+{
+	if (j.id < 0 || j.id >= (int)l_Cks.size()) return;
+	CkInfo& ci = *l_Cks[j.id];
+	Record({'E', NowUs(), j.id});
+	l_AsyncAlive--;
+	Checkable::DecreasePendingChecks();
+	FinishExecution(ci, j.id, j.ck, j.cr, j.run);
+}
+
+void AsyncWorker()
+{
+	Utility::SetThreadName("sch async");
+	std::unique_lock<std::mutex> lock(l_AsyncMutex);
+	for (;;) {
+		if (l_AsyncQ.empty()) { l_AsyncCV.wait(lock); continue; }
+		double due = l_AsyncQ.begin()->first, now = Utility::GetTime();
+		if (due > now && !l_AsyncFlush) { l_AsyncCV.wait_for(lock, std::chrono::duration<double>(std::min(due - now, 0.05))); continue; }
+		AsyncJob j = l_AsyncQ.begin()->second;
+		l_AsyncQ.erase(l_AsyncQ.begin());
+		l_AsyncActive++;
+		lock.unlock();
+		try { AsyncDeliver(j); } catch (const std::exception&) { }
+		lock.lock();
+		l_AsyncActive--;
+		l_AsyncCV.notify_all();
+	}
+}
+
+void AsyncEnsureWorkers()   // with l_AsyncMutex held
+{
+	if (l_AsyncThreads.empty())
+		for (int i = 0; i < 3; i++) { l_AsyncThreads.emplace_back(AsyncWorker); l_AsyncThreads.back().detach(); }
+}
+
+void AsyncPush(double due, AsyncJob j)
+{
+	std::unique_lock<std::mutex> lock(l_AsyncMutex);
+	AsyncEnsureWorkers();
+	l_AsyncQ.emplace(due, std::move(j));
+	l_AsyncCV.notify_all();
+}
+
+// deliver everything that is still outstanding (end of a run) and wait for it
+void AsyncFlushAll()
+{
+	std::unique_lock<std::mutex> lock(l_AsyncMutex);
+	if (!l_AsyncHeld.empty() || !l_AsyncQ.empty()) AsyncEnsureWorkers();
+	for (auto& kv : l_AsyncHeld) l_AsyncQ.emplace(0.0, kv.second);
+	l_AsyncHeld.clear();
+	l_AsyncFlush = true;
+	l_AsyncCV.notify_all();
+	while (!l_AsyncQ.empty() || l_AsyncActive > 0) l_AsyncCV.wait_for(lock, std::chrono::milliseconds(20));
+	l_AsyncFlush = false;
+}
+
+void SchCheckFn(const Checkable::Ptr& checkable, const CheckResult::Ptr& cr, const Dictionary::Ptr& resolvedMacros, bool useResolvedMacros)
+{
+	// command_endpoint branch of ExecuteCheck: the command is only asked to resolve its macros (PluginUtility::ExecuteCommand
+	// returns at `if (resolvedMacros && !useResolvedMacros)'), nothing is executed here
+	if (resolvedMacros && !useResolvedMacros)
+		return;
+	if (l_PcrCk && checkable == l_PcrCk) {
+		l_DefStarted++;
+		l_DefCr = cr;
+		return;
+	}
+	int id = IndexOf(checkable.get());
+	if (id < 0 || !l_Running.load()) {
+		// not ours (left-over from an earlier case): behave like a fast OK check
+		cr->SetState(ServiceOK);
+		checkable->ProcessCheckResult(cr);
+		return;
+	}
+	CkInfo& ci = *l_Cks[id];
+	{
+		// lateness of this execution relative to the time it was scheduled for (schedule_start = next_check at dispatch);
+		// only for calm checkables, whose next_check is never stale
+		long t = NowUs();
+		long late = ci.calm ? std::max(0L, t - ToUs(cr->GetScheduleStart())) : -1;
+		ci.nS++;
+		Record({'S', t, id, late, ToUs(cr->GetScheduleStart()), Tid()});
+	}
+	long run = ci.runs.fetch_add(1);
+	if (ci.kind == 1) {
+		// asynchronous: count the slot like PluginCheckTask::ScriptFunc and return; m_CheckRunning stays set
+		l_AsyncAlive++;
+		Checkable::IncreasePendingChecks();
+		AsyncJob j{id, checkable, cr, run};
+		if (ci.tl) {
+			std::unique_lock<std::mutex> lock(l_AsyncMutex);
+			if (!ci.gateOpen.load()) { l_AsyncHeld[id] = j; return; }
+		}
+		AsyncPush(Utility::GetTime() + ci.dur_us / 1e6, j);
+		return;
+	}
+	if (ci.tl) {
+		std::unique_lock<std::mutex> lock(l_GateMutex);
+		ci.blocked++;
+		while (!ci.gateOpen.load()) l_GateCV.wait_for(lock, std::chrono::milliseconds(50));
+		ci.blocked--;
+	} else if (ci.dur_us > 0)
+		Utility::Sleep(ci.dur_us / 1e6);
+	Record({'E', NowUs(), id});
+	if (ci.mode == 3) {
+		tl_Ctx = Ctx{checkable.get(), NowUs(), 1};
+		throw std::runtime_error("sch: check command throws by configuration");
+	}
+	FinishExecution(ci, id, checkable, cr, run);
 }
 
 void InitOnce()
@@ -172,6 +288,18 @@ void InitOnce()
 		Record({'N', id, tl_Ctx.t0, t1, next, std::max(ci.ci_us, ci.ri_us), 0});
 		tl_Ctx = Ctx{};
 	});
+	// force_next_check consumed (set to false): in the code as modelled this PRECEDES the ExecuteCheck it belongs to
+	Checkable::OnForceNextCheckChanged.connect([](const Checkable::Ptr& c, const Value&) {
+		if (!l_Running.load()) return;
+		// the signal does not carry the value.  The requester's own emission is skipped by thread (reading the flag there would
+		// race with the scheduler consuming it at once and count that clear twice); nobody else sets the flag to true
+		if (tl_Requesting) return;
+		if (c->GetForceNextCheck()) return;
+		int id = IndexOf(c.get());
+		if (id < 0) return;
+		l_Cks[id]->nC++;
+		Record({'C', NowUs(), id});
+	});
 	// end of ProcessCheckResult, same thread: the post-state is final (a result exists now by definition)
 	Checkable::OnNewCheckResult.connect([](const Checkable::Ptr& c, const CheckResult::Ptr&, const MessageOrigin::Ptr&) {
 		if (!l_Running.load()) return;
@@ -179,7 +307,7 @@ void InitOnce()
 		int id = IndexOf(c.get());
 		if (id < 0) return;
 		CkInfo& ci = *l_Cks[id];
-		if (ci.mode == 3) Record({'D', NowUs(), id});   // thrown: ProcessCheckResult runs in ExecuteCheckHelper's catch block
+		if (ci.mode == 3) { ci.nD++; Record({'D', NowUs(), id}); }   // thrown: ProcessCheckResult runs in ExecuteCheckHelper's catch block
 		if (!tl_Ctx.have) return;
 		long I = (c->GetStateType() == StateTypeSoft) ? ci.ri_us : ci.ci_us;
 		Record({'N', id, tl_Ctx.t0, tl_Ctx.t1, tl_Ctx.next, I, 1});
@@ -312,6 +440,11 @@ static void PcrCleanup()
 	if (!l_PcrHost) return;
 	Host::Ptr h = l_PcrHost;
 	l_PcrCk = nullptr; l_PcrHost = nullptr; l_DefCr = nullptr; l_DefStarted = 0;
+	if (l_PcrRemote) {
+		Endpoint::Ptr ep = Endpoint::GetByName("schpeer");
+		if (ep) { std::unique_lock<std::mutex> lock(ep->m_ClientsLock); ep->m_Clients.clear(); }
+		l_PcrRemote = 0;
+	}
 	for (const Service::Ptr& sv : h->GetServices()) CkRemoveObject(sv);
 	CkRemoveObject(h);
 }
@@ -324,9 +457,17 @@ VOP(sch_cnew)
 	std::string hn = "schp" + std::to_string(++l_PcrNo);
 	bool svc = a.str("kind", "host") == "svc";
 	std::ostringstream c;
+	int remote = a.num("remote", 0);
+	if (remote) {
+		// command_endpoint branch of ExecuteCheck: an endpoint that is not the local one (there is no ApiListener: no local endpoint)
+		static bool peer = false;
+		if (!peer) { peer = true; LoadConfig("object Endpoint \"schpeer\" { }\nobject Zone \"schzone\" { endpoints = [ \"schpeer\" ] }\n"); }
+	}
 	auto attrs = [&](bool subject) {
 		std::ostringstream o;
 		o << "  check_command = \"schcmd\"\n  enable_active_checks = false\n  enable_flapping = false\n";
+		if (remote) o << "  zone = \"schzone\"\n";
+		if (remote && subject) o << "  command_endpoint = \"schpeer\"\n";
 		if (subject)
 			o << "  max_check_attempts = " << a.num("max", 3) << "\n  check_interval = " << (a.num("ci4", 20) / 4.0)
 			  << "\n  retry_interval = " << (a.num("ri4", 4) / 4.0) << "\n";
@@ -339,6 +480,13 @@ VOP(sch_cnew)
 	if (svc) l_PcrCk = Service::GetByNamePair(hn, "s"); else l_PcrCk = l_PcrHost;
 	if (!l_PcrCk) throw std::runtime_error("sch: subject not created");
 	l_PcrCk->SetSchedulingOffset(a.num("off"));
+	l_PcrRemote = remote ? (a.num("conn", 0) ? 2 : 1) : 0;
+	if (l_PcrRemote == 2) {
+		Endpoint::Ptr ep = Endpoint::GetByName("schpeer");
+		if (!ep) throw std::runtime_error("sch: no peer endpoint");
+		std::unique_lock<std::mutex> lock(ep->m_ClientsLock);
+		ep->m_Clients.insert(nullptr);   // GetConnected() = there is a client; nothing is sent (no ApiListener instance)
+	}
 }
 
 VOP(sch_cr)
@@ -388,6 +536,20 @@ VOP(sch_exec)
 	l_RaceState = a.has("race") ? (int)a.num("race") : -1;
 	l_PcrCk->ExecuteCheck();
 	l_RaceState = -1;
+	if (l_PcrRemote) {
+		// remote: the local node executes nothing; what is visible afterwards is next_check (connected: now + timeout + 30) or
+		// the UNKNOWN result "not connected" (execution_start = now); ExecuteCheck has released m_CheckRunning on return
+		double now = a.dbl("now");
+		std::ostringstream o;
+		o << "exec remote conn=" << (l_PcrRemote == 2 ? 1 : 0);
+		if (l_PcrRemote == 1) {
+			CheckResult::Ptr cr = l_PcrCk->GetLastCheckResult();
+			o << " got=" << ((cr && cr->GetExecutionStart() == now) ? 1 : 0) << " ty=" << (long)l_PcrCk->GetStateType();
+		}
+		o << " next=" << std::llround((l_PcrCk->GetNextCheck() - now) * 10000.0);
+		Out(o.str());
+		return;
+	}
 	Out(std::string("exec started=") + (l_DefStarted > before ? "1" : "0"));
 }
 
@@ -422,6 +584,11 @@ VOP(sch_run)
 	int tp = a.num("tp", 8);
 	long imin = a.num("imin", 50), imax = a.num("imax", 400);
 	int slowPct = a.num("slow", 20), thrPct = a.num("thr", 10), stalePct = a.num("stale", 10);
+	// asynchronous check commands (percent of the checkables).  Of those, as long as the budget lasts (a quarter of the slots, none
+	// below max_concurrent_checks 4: they hold their slot most of the time): 25 % run LONGER than their interval, 15 % do not
+	// return before a "timeout" of three intervals - the checkable is back in the idle set all that time and comes up again and again
+	int asyncPct = a.num("async", 0);
+	int slowBudget = a.num("max", 4) >= 4 ? (int)a.num("max", 4) / 4 : 0;
 	// quiet=1|2: no storm.  max is small, checkable 1 is slow and holds the slot; while its check runs it is paused (1) or
 	// deleted (2); nothing else happens afterwards.  The completion that frees the slot then notifies nobody
 	// (ExecuteCheckHelper only notifies if the checkable is still in pending): the other, due checkables must
@@ -469,6 +636,20 @@ VOP(sch_run)
 		int m = (int)rng.range(0, 99);
 		ci.mode = m < thrPct ? 3 : (m < thrPct + 15 ? 1 : (m < thrPct + 45 ? 2 : (m < thrPct + 45 + stalePct ? 4 : 0)));
 		ci.dur_us = rng.chance(slowPct) ? rng.range(dlo, dhi) * 1000 : (rng.chance(30) ? rng.range(1, 5) * 1000 : 0);
+		ci.kind = 0;
+		if (asyncPct > 0 && !quiet) {
+			// drawn in any case: the stream of random numbers (and with it everything else) does not depend on the budget
+			bool as = rng.chance(asyncPct);
+			int sub = (int)rng.range(0, 99);
+			long f1 = rng.range(120, 250), f2 = rng.range(0, 200);
+			if (as && ci.mode != 3) {
+				ci.kind = 1;
+				long imx = std::max(ci.ci_us, ci.ri_us);
+				if (sub < 60 || slowBudget <= 0) ci.dur_us = rng.range(1, 10) * 1000;
+				else if (sub < 85) { ci.dur_us = imx * f1 / 100; slowBudget--; }
+				else { ci.dur_us = 3 * imx + f2 * 1000; slowBudget--; }
+			}
+		}
 		if (quiet) {
 			ci.mode = 0;
 			ci.dur_us = (id == 1) ? a.num("hold", 500) * 1000 : 0;
@@ -569,7 +750,7 @@ VOP(sch_run)
 			}
 			Utility::Sleep(0.02);
 			if (quiet == 1) touch(1, [&](CkInfo& k) { k.obj->SetAuthority(false); k.paused = true; });
-			else touch(1, [&](CkInfo& k) { CkRemoveObject(k.obj); k.exists = false; });
+			else { Record({'Z', NowUs(), 1}); touch(1, [&](CkInfo& k) { CkRemoveObject(k.obj); k.exists = false; }); }
 			Snapshot(checker, nlive.load());
 			while (Utility::GetTime() < endAt) Utility::Sleep(0.05);   // silence
 			return;
@@ -597,7 +778,9 @@ VOP(sch_run)
 			} else if (op < 56) {    // force (API reschedule-check force=true)
 				long tf = NowUs();   // BEFORE the request: the forced check may start before SetNextCheck() returns
 				for (auto& fr : forced) if (fr.c == c && fr.until < 0) fr.until = tf;   // a new request re-keys c (next_check = now): it supersedes the older one
-				touch(c, [&](CkInfo& k) { k.obj->SetForceNextCheck(true); k.obj->SetNextCheck(Utility::GetTime()); });
+				Record({'R', tf, c, 0});
+				touch(c, [&](CkInfo& k) { tl_Requesting = true; k.obj->SetForceNextCheck(true); tl_Requesting = false; k.obj->SetNextCheck(Utility::GetTime()); });
+				Record({'R', NowUs(), c, 1});
 				if (!ci.paused) forced.push_back({c, tf, -1, NowUs()});
 			} else if (op < 70) {    // enable_active_checks
 				touch(c, [&](CkInfo& k) { k.enabled = !k.enabled; k.obj->SetEnableActiveChecks(k.enabled); });
@@ -605,7 +788,7 @@ VOP(sch_run)
 				touch(c, [&](CkInfo& k) { k.inperiod = !k.inperiod; k.obj->SetCheckPeriodRaw(k.inperiod ? "" : "sch_never"); });
 			} else if (op < 90) {    // delete at runtime (never the carrier host)
 				if (c == 0) continue;
-				touch(c, [&](CkInfo& k) { CkRemoveObject(k.obj); k.exists = false; });
+				{ Record({'Z', NowUs(), c}); touch(c, [&](CkInfo& k) { CkRemoveObject(k.obj); k.exists = false; }); }
 			} else {                 // create at runtime
 				if (n >= ncap) continue;
 				int id = n;
@@ -637,6 +820,7 @@ VOP(sch_run)
 	// stop the scheduler thread, then let every queued/running check finish
 	static_pointer_cast<ConfigObject>(checker)->Deactivate(true);
 	DrainThreadPool();
+	AsyncFlushAll();   // asynchronous executions still outstanding deliver their result now
 	l_Running.store(false);
 	long pcount = Checkable::GetPendingChecks();
 	size_t nidle, npend;
@@ -648,7 +832,9 @@ VOP(sch_run)
 
 	{
 		std::ostringstream o;
-		o << "cfg max=" << maxc << " n=" << n << " slack=" << slack_us << " dmax=" << dmax_us << " end=" << tEnd;
+		int nas = 0, nlong = 0;
+		for (int c = 0; c < n; c++) { if (l_Cks[c]->kind == 1) { nas++; if (l_Cks[c]->dur_us > std::max(l_Cks[c]->ci_us, l_Cks[c]->ri_us)) nlong++; } }
+		o << "cfg max=" << maxc << " n=" << n << " slack=" << slack_us << " dmax=" << dmax_us << " end=" << tEnd << " async=" << nas << " asynclong=" << nlong;
 		Out(o.str());
 	}
 	for (const Rec& r : l_Recs) {
@@ -657,6 +843,9 @@ VOP(sch_run)
 			case 'S': o << "S " << r.a << " " << r.b << " " << r.c << " " << r.d << " " << r.e; break;
 			case 'X': o << "X " << r.a << " " << r.b << " " << r.c; break;
 			case 'D': o << "D " << r.a << " " << r.b; break;
+			case 'C': o << "C " << r.a << " " << r.b; break;
+			case 'Z': o << "Z " << r.a << " " << r.b; break;   // the driver is about to delete (deactivate) the checkable
+			case 'R': o << "R " << r.a << " " << r.b << " " << r.c; break;
 			case 'E': o << "E " << r.a << " " << r.b; break;
 			case 'P': o << "P " << r.a << " " << r.s; break;
 			case 'N': o << "N " << r.a << " " << r.b << " " << r.c << " " << r.d << " " << r.e << " " << r.f; break;
@@ -703,3 +892,250 @@ VOP(sch_run)
 	l_Cks.clear();
 	if (slotFd >= 0) { flock(slotFd, LOCK_UN); close(slotFd); }
 }
+
+// ------------------------------------------------------------------ timelines (family tl)
+// A quiet scenario: 1-3 hosts that only run when forced or explicitly enabled, whose check command (synchronous or
+// asynchronous) runs exactly until the script opens its gate.  Every script step is applied to the REAL objects while the real
+// scheduler thread and the real pool run; after each step the harness waits until the system is STABLE - a condition read from
+// the real state (idle/pending under m_Mutex, m_PendingChecks, force_next_check), not from any expectation - and prints one
+// line with the number of executions started/finished, force_next_check and the set each checkable is in.  The model executes
+// the same steps with the extracted step function and must print the same lines.
+namespace {
+struct TlState {
+	bool active = false;
+	CheckerComponent::Ptr checker;
+	std::string cname;
+	int n = 0, maxc = 1;
+	long step = 0;
+	int slotFd = -1;
+	bool unstable = false;   // a step of this case did not settle: the case is lost anyway, later steps do not wait long again
+} l_Tl;
+
+std::string TlLine(bool timeout)
+{
+	std::vector<const Checkable *> idle, pend;
+	int pcount;
+	{
+		std::unique_lock<std::mutex> lock(l_Tl.checker->m_Mutex);
+		pcount = Checkable::GetPendingChecks();
+		for (const CheckableScheduleInfo& csi : l_Tl.checker->m_IdleCheckables) idle.push_back(csi.Object.get());
+		for (const CheckableScheduleInfo& csi : l_Tl.checker->m_PendingCheckables) pend.push_back(csi.Object.get());
+	}
+	std::ostringstream o;
+	o << "tl " << l_Tl.step << (timeout ? " UNSTABLE" : "") << " pc=" << pcount;
+	for (int c = 0; c < l_Tl.n; c++) {
+		CkInfo& ci = *l_Cks[c];
+		char w = '-';
+		for (auto p : idle) if (p == ci.obj.get()) w = 'i';
+		for (auto p : pend) if (p == ci.obj.get()) w = (w == 'i') ? 'B' : 'p';
+		o << " c" << c << ":s=" << ci.nS.load() << ",d=" << ci.nD.load() << ",cl=" << ci.nC.load()
+		  << ",f=" << (ci.obj->GetForceNextCheck() ? 1 : 0) << ",w=" << w;
+	}
+	return o.str();
+}
+
+// one sample of the stability condition; sig = what must not change while we watch
+bool TlStableSample(std::string& sig)
+{
+	std::set<const Checkable *> idle, pend;
+	int pcount;
+	{
+		std::unique_lock<std::mutex> lock(l_Tl.checker->m_Mutex);
+		pcount = Checkable::GetPendingChecks();
+		for (const CheckableScheduleInfo& csi : l_Tl.checker->m_IdleCheckables) idle.insert(csi.Object.get());
+		for (const CheckableScheduleInfo& csi : l_Tl.checker->m_PendingCheckables) pend.insert(csi.Object.get());
+	}
+	bool ok = true;
+	long nblocked = 0;
+	std::ostringstream o;
+	for (int c = 0; c < l_Tl.n; c++) {
+		CkInfo& ci = *l_Cks[c];
+		const Checkable *p = ci.obj.get();
+		long S = ci.nS.load(), D = ci.nD.load();
+		bool force = ci.obj->GetForceNextCheck();
+		int bl = ci.blocked.load();
+		nblocked += bl;
+		bool inflight = S > D;
+		bool free_slot = pcount < l_Tl.maxc;
+		if (pend.count(p) && bl == 0) ok = false;                                  // a helper of c is under way
+		if (idle.count(p) && !ci.paused && force && free_slot) ok = false;         // a forced check is owed and can start
+		if (!ci.paused && ci.enabled && ci.inperiod && !inflight && free_slot) ok = false;   // a regular check is due soon
+		if (ci.gateOpen.load() && inflight) ok = false;                             // an ungated execution is finishing
+		o << S << "," << D << "," << ci.nC.load() << "," << force << "," << bl << "," << (idle.count(p) ? 'i' : (pend.count(p) ? 'p' : '-')) << ";";
+	}
+	if (pcount != nblocked + l_AsyncAlive.load()) ok = false;                      // some ExecuteCheckHelper is between count-up and count-down
+	o << pcount;
+	sig = o.str();
+	return ok;
+}
+
+bool TlWaitStable()
+{
+	double t0 = Utility::GetTime();
+	double window = 0.15, since = -1;
+	std::string sig0;
+	for (;;) {
+		double t = Utility::GetTime();
+		if (t - t0 > (l_Tl.unstable ? 1.0 : 12.0)) { l_Tl.unstable = true; return false; }
+		std::string sig;
+		bool ok = TlStableSample(sig);
+		if (!ok) since = -1;
+		else if (sig != sig0 || since < 0) since = t;
+		else if (t - since >= window) return true;
+		sig0 = sig;
+		Utility::Sleep(0.01);
+		double over = Utility::GetTime() - t - 0.01;
+		if (over > 0.03) { since = -1; window = std::min(1.0, std::max(window, 5 * over)); }   // the machine stalls: watch longer
+	}
+}
+
+void TlEmit()
+{
+	bool st = TlWaitStable();
+	Out(TlLine(!st));
+	l_Tl.step++;
+}
+
+void TlFinish(bool print)
+{
+	if (!l_Tl.active) return;
+	l_Tl.active = false;
+	// stop the scheduler thread first (nothing new is dispatched), then open every gate and let everything in flight finish
+	static_pointer_cast<ConfigObject>(l_Tl.checker)->Deactivate(true);
+	for (int c = 0; c < l_Tl.n; c++) l_Cks[c]->gateOpen.store(true);
+	{ std::unique_lock<std::mutex> lock(l_GateMutex); l_GateCV.notify_all(); }
+	DrainThreadPool();
+	AsyncFlushAll();
+	l_Running.store(false);
+	long pcount = Checkable::GetPendingChecks();
+	size_t npend;
+	{
+		std::unique_lock<std::mutex> lock(l_Tl.checker->m_Mutex);
+		npend = l_Tl.checker->m_PendingCheckables.size();
+	}
+	if (print) {
+		// the order of the records is the order in which their critical sections were entered (one mutex): happens-before
+		for (const Rec& r : l_Recs) {
+			std::ostringstream o;
+			switch (r.k) {
+				case 'S': o << "tlev S " << r.b; break;
+				case 'E': o << "tlev E " << r.b; break;
+				case 'X': o << "tlev X " << r.b << " " << r.c; break;
+				case 'C': o << "tlev C " << r.b; break;
+				case 'D': o << "tlev D " << r.b; break;
+				default: continue;
+			}
+			Out(o.str());
+		}
+		std::ostringstream o;
+		o << "tl end pcount=" << pcount << " pend=" << npend;
+		for (int c = 0; c < l_Tl.n; c++) o << " c" << c << ":s=" << l_Cks[c]->nS.load() << ",d=" << l_Cks[c]->nD.load();
+		Out(o.str());
+	}
+	for (int c = l_Tl.n - 1; c >= 0; c--) if (l_Cks[c]->obj) CkRemoveObject(l_Cks[c]->obj);
+	{
+		std::unique_lock<std::mutex> lock(l_Tl.checker->m_Mutex);
+		l_Tl.checker->m_IdleCheckables.clear();
+		l_Tl.checker->m_PendingCheckables.clear();
+	}
+	l_OldCheckers.push_back(l_Tl.checker);
+	static_pointer_cast<ConfigObject>(l_Tl.checker)->Unregister();
+	ConfigItem::Ptr item = ConfigItem::GetByTypeAndName(l_Tl.checker->GetReflectionType(), l_Tl.cname);
+	if (item) item->Unregister();
+	l_Tl.checker = nullptr;
+	{ std::unique_lock<std::mutex> lock(l_IndexMutex); l_Index.clear(); }
+	l_Cks.clear();
+	l_Recs.clear();
+}
+} // namespace
+
+// sch_tl_new n=<1..3> max=<m> iv=<ms> kinds=<s|a per checkable> gates=<o|c per checkable>
+VOP(sch_tl_new)
+{
+	InitOnce();
+	TlFinish(false);
+	Utility::VerifSetTime(-1);
+	long runNo = ++l_RunNo;
+	l_Tl = TlState();
+	l_Tl.n = a.num("n", 1);
+	l_Tl.maxc = a.num("max", 2);
+	long iv_us = a.num("iv", 150) * 1000;
+	std::string kinds = a.str("kinds", "s"), gates = a.str("gates", "c");
+	ScriptGlobal::Set("MaxConcurrentChecks", l_Tl.maxc);
+	Configuration::Concurrency = 2;
+	DrainThreadPool();
+	l_Cks.clear();
+	{ std::unique_lock<std::mutex> lock(l_IndexMutex); l_Index.clear(); }
+	l_Recs.clear();
+	l_T0 = Utility::GetTime();
+	l_Tl.cname = "schtlchecker" + std::to_string(runNo);
+	LoadConfig("object CheckerComponent \"" + l_Tl.cname + "\" { }\n");
+	l_Tl.checker = ConfigObject::GetObject<CheckerComponent>(l_Tl.cname);
+	if (!l_Tl.checker) throw std::runtime_error("sch_tl: no checker");
+	std::ostringstream cfg;
+	for (int c = 0; c < l_Tl.n; c++) {
+		l_Cks.emplace_back(new CkInfo());
+		CkInfo& ci = *l_Cks[c];
+		ci.tl = true;
+		ci.kind = (c < (int)kinds.size() && kinds[c] == 'a') ? 1 : 0;
+		ci.gateOpen.store(c < (int)gates.size() && gates[c] == 'o');
+		ci.ci_us = ci.ri_us = iv_us;
+		ci.name = "schtl" + std::to_string(runNo) + "h" + std::to_string(c);
+		cfg << "object Host \"" << ci.name << "\" {\n  check_command = \"schcmd\"\n  max_check_attempts = 1\n  enable_flapping = false\n"
+		    << "  enable_active_checks = false\n  check_interval = " << (iv_us / 1e6) << "\n  retry_interval = " << (iv_us / 1e6) << "\n}\n";
+	}
+	l_Running.store(true);
+	l_Tl.active = true;
+	LoadConfig(cfg.str());
+	for (int c = 0; c < l_Tl.n; c++) {
+		CkInfo& ci = *l_Cks[c];
+		Checkable::Ptr o = Host::GetByName(ci.name);
+		if (!o) throw std::runtime_error("sch_tl: object not created: " + ci.name);
+		{ std::unique_lock<std::mutex> lock(l_IndexMutex); l_Index[o.get()] = c; }
+		ci.obj = o;
+		ci.exists = true; ci.paused = true; ci.enabled = false; ci.inperiod = true;
+	}
+	for (int c = 0; c < l_Tl.n; c++) { l_Cks[c]->obj->SetAuthority(true); l_Cks[c]->paused = false; }
+	TlEmit();
+}
+
+// sch_tl_do op=force|enable|disable|close|open|pause|resume|release|hold|resched c=<i>
+VOP(sch_tl_do)
+{
+	if (!l_Tl.active) throw std::runtime_error("sch_tl_do without sch_tl_new");
+	int c = a.num("c", 0);
+	if (c < 0 || c >= l_Tl.n) throw std::runtime_error("sch_tl_do: no such checkable");
+	CkInfo& k = *l_Cks[c];
+	std::string op = a.str("op");
+	if (op == "force") { tl_Requesting = true; k.obj->SetForceNextCheck(true); tl_Requesting = false; k.obj->SetNextCheck(Utility::GetTime()); }
+	else if (op == "enable") { k.enabled = true; k.obj->SetEnableActiveChecks(true); }
+	else if (op == "disable") { k.enabled = false; k.obj->SetEnableActiveChecks(false); }
+	else if (op == "close") { k.inperiod = false; k.obj->SetCheckPeriodRaw("sch_never"); }
+	else if (op == "open") { k.inperiod = true; k.obj->SetCheckPeriodRaw(""); }
+	else if (op == "pause") { k.obj->SetAuthority(false); k.paused = true; }
+	else if (op == "resume") { k.obj->SetAuthority(true); k.paused = false; }
+	else if (op == "resched") { k.obj->SetNextCheck(Utility::GetTime()); }
+	else if (op == "hold") { k.gateOpen.store(false); }
+	else if (op == "release") {
+		k.gateOpen.store(true);
+		{ std::unique_lock<std::mutex> lock(l_GateMutex); l_GateCV.notify_all(); }
+		bool have = false;
+		AsyncJob j;
+		{
+			std::unique_lock<std::mutex> lock(l_AsyncMutex);
+			auto it = l_AsyncHeld.find(c);
+			if (it != l_AsyncHeld.end()) { j = it->second; l_AsyncHeld.erase(it); have = true; }
+		}
+		if (have) AsyncPush(0.0, j);
+	}
+	else throw std::runtime_error("sch_tl_do: unknown op " + op);
+	TlEmit();
+}
+
+VOP(sch_tl_end)
+{
+	if (!l_Tl.active) throw std::runtime_error("sch_tl_end without sch_tl_new");
+	TlFinish(true);
+}
+
+static struct SchTlCaseEnd { SchTlCaseEnd() { RegisterCaseEnd([]() { TlFinish(false); }); } } l_SchTlCaseEnd;
